@@ -113,7 +113,7 @@ class C15:
             "'', 0, text, None, nan, 2.5, non-Mixed columns and the empty design for the model; replace: random mappings "
             'over the three column types, disjoint (oracle + model) and chained (model only), NaN keys, malformed keys / '
             'values; keep_only / dm[...]: every subset of 1-4 columns by name, by object and mixed, through keep_only(*), '
-            'keep_only([..]) and dm[..], with unknown names, foreign columns, aliases and non-column arguments; z: Float '
+            'keep_only([..]) and dm[..], with unknown names, foreign columns, aliases and non-column arguments; also by object after the column's name was looked up (col.name, keep_only / dm[...] by object) and the column was then renamed, re-added under a new name or swapped names with another column (judged by the current name); z: Float '
             'and Mixed columns with >= 2 distinct finite values and nan/inf/text/None cells (tolerance 1e-9 on the Python '
             'side), plus families with a rational standard deviation compared exactly with the model. Every table is '
             'built with columns inserted in non-alphabetical order and in one of three row orders (as created / permuted '
@@ -277,6 +277,27 @@ class C15:
     def _run_keep(self, inp):
         from datamatrix import DataMatrix, operations as ops
         dm = build(inp['tab'])
+        # history of the source before the selection: name look-ups, renames, re-added names (all public API)
+        with warnings.catch_warnings():
+            warnings.simplefilter('ignore')
+            for st in inp.get('prep') or []:
+                if st[0] == 'lookup':
+                    dm[st[1]].name
+                elif st[0] == 'keep_by_obj':
+                    ops.keep_only(dm, dm[st[1]])
+                elif st[0] == 'getitem_by_obj':
+                    dm[dm[st[1]],]
+                elif st[0] == 'rename':
+                    dm.rename(st[1], st[2])
+                elif st[0] == 'readd':          # the same column under a new name, the old name deleted
+                    dm[st[2]] = dm[st[1]]
+                    del dm[st[1]]
+                elif st[0] == 'swap':           # two columns exchange their names
+                    dm.rename(st[1], '__tmp')
+                    dm.rename(st[2], st[1])
+                    dm.rename('__tmp', st[2])
+                else:
+                    raise AssertionError(st)
         if inp.get('alias'):
             dm[inp['alias'][0]] = dm[inp['alias'][1]]
         src_lit, src_py, prob = dump(dm)
@@ -327,6 +348,8 @@ class C15:
         nontriv = not (isinstance(observed, dict) and observed.get('cols') == src_py['cols'])
         tags = ['keep:' + via, 'keep:' + ('error' if 'raises' in observed else 'ok'),
                 'keep:' + '+'.join(sorted({list(a)[0] for a in inp['args']}) or ['none'])]
+        if inp.get('prep'):
+            tags.append('keep:after-' + '+'.join(sorted({st[0] for st in inp['prep']})))
         return self._finish(inp, 'keep', src_lit, src_py, dm, observed, pyfail, oracle, model, nontriv, tags)
 
     def _run_z(self, inp):
@@ -625,6 +648,39 @@ class C15:
                 args.append(('name', i) if c < 0.4 else ('obj', i) if c < 0.75 else ('unknown', i) if c < 0.87
                             else ('foreign', rng.randrange(ncol + 1)) if c < 0.95 else ('other', 0))
             one(ncol, args, rng.choice(vias), alias=(rng.randrange(ncol) if rng.random() < 0.12 else None))
+        # selection by object after the column's name was looked up and the column was renamed / re-added / swapped:
+        # the object must be found under its CURRENT name
+        for _ in range(90 if tier == 'quick' else 900):
+            ncol = rng.randint(1, 4)
+            n = rng.randint(1, 4)
+            cols = [(k, self._payload(rng, n, k)) for k in [rng.choice(KINDS) for _ in range(ncol)]]
+            tab, names = self._table(rng, n, cols, 'any')
+            cur = list(names)
+            prep = []
+            fresh = [x for x in NAMES + ['r1', 'Q', 'new_name'] if x not in names]
+            rng.shuffle(fresh)
+            for _j in range(rng.randint(1, 3)):
+                i = rng.randrange(ncol)
+                look = rng.choice(['lookup', 'keep_by_obj', 'getitem_by_obj', None] if _j else ['lookup', 'keep_by_obj', 'getitem_by_obj'])
+                if look:
+                    for k in ([i] if rng.random() < 0.6 else range(ncol)):
+                        prep.append([look, cur[k]])
+                c = rng.random()
+                if c < 0.55 or ncol == 1:
+                    new = fresh.pop()
+                    prep.append(['rename', cur[i], new])
+                    cur[i] = new
+                elif c < 0.75:
+                    new = fresh.pop()
+                    prep.append(['readd', cur[i], new])
+                    cur[i] = new
+                else:
+                    j = rng.choice([x for x in range(ncol) if x != i])
+                    prep.append(['swap', cur[i], cur[j]])
+                    cur[i], cur[j] = cur[j], cur[i]
+            sub = rng.sample(range(ncol), rng.randint(1, ncol))
+            args = [({'obj': cur[k]} if rng.random() < 0.8 else {'name': cur[k]}) for k in sub]
+            cases.append(self.rerun({'op': 'keep', 'tab': tab, 'prep': prep, 'args': args, 'via': rng.choice(vias)}))
         return [c for c in cases if c is not None]
 
     def gen_z(self, rng, tier):
@@ -687,7 +743,7 @@ class C15:
             return
         tab = inp['tab']
         needed = {inp.get('wname'), inp.get('col')} | {list(a.values())[0] for a in inp.get('args', [])} \
-            | set(inp.get('alias') or [])
+            | set(inp.get('alias') or []) | {x for st in (inp.get('prep') or []) for x in st[1:]}
         # drop a column that the operation does not name
         for i, c in enumerate(tab['cols']):
             if c[0] not in needed and (op != 'ff') and len(tab['cols']) > 1:
@@ -715,6 +771,10 @@ class C15:
         if op == 'replace' and len(inp['mapping']) > 1:
             for i in range(len(inp['mapping'])):
                 yield dict(inp, mapping=inp['mapping'][:i] + inp['mapping'][i + 1:])
+        if op == 'keep' and inp.get('prep'):
+            for i in range(len(inp['prep'])):
+                if inp['prep'][i][0] in ('lookup', 'keep_by_obj', 'getitem_by_obj'):
+                    yield dict(inp, prep=inp['prep'][:i] + inp['prep'][i + 1:])
         if op == 'keep' and len(inp['args']) > 1:
             for i in range(len(inp['args'])):
                 yield dict(inp, args=inp['args'][:i] + inp['args'][i + 1:])
